@@ -77,7 +77,9 @@ def _gen(rng, tier):
     except ValueError:
         notation = units.plain_notation()
         text = 'out = ' + sg.to_text(ast, sg.Spelling(rng)) + ';'
-    return {'dense': False, 'vars': vars_, 'ast': ast, 'n': n, 'data': data, 'notation': notation,
+    # the object that evaluates the long log has a history: it was used before under a sampling period k times as long
+    prior_factor = rng.choice([2, 3, 10]) if rng.random() < 0.15 else None
+    return {'dense': False, 'vars': vars_, 'ast': ast, 'n': n, 'data': data, 'notation': notation, 'prior_factor': prior_factor,
             'text': text, 'cls': rng.choice(['dt_off', 'dt_off', 'dt'])}
 
 
@@ -102,7 +104,15 @@ def run(sc):
         if not sc['dense']:
             n, data = sc['n'], sc['data']
             stamps = units.stamps(nt, n) if nt else list(range(n))
-            full = [p[1] for p in M.dt_evaluate(M.build(desc), stamps, data)]
+            fdesc = desc
+            if sc.get('prior_factor'):
+                k = sc['prior_factor']
+                samp = list(desc.get('sampling') or [1, 's', 0.1])
+                prior = {'unit': desc.get('unit'), 'sampling': [samp[0] * k, samp[1], samp[2]], 'data': data,
+                         'times': [t * k for t in stamps]}
+                fdesc = dict(desc, prior=prior)
+                r.faults['object_used_before_under_another_period'] += 1
+            full = [p[1] for p in M.dt_evaluate(M.build(fdesc), stamps, data)]
             r.api_calls += 3
             r.obs.append(full)
             for m in range(1, n):
@@ -184,6 +194,10 @@ def run(sc):
 
 
 def shrinks(sc):
+    if sc.get('prior_factor'):
+        c = copy.deepcopy(sc)
+        c['prior_factor'] = None
+        yield c
     if sc['dense']:
         for c in common.shrink_dense(sc):
             if not sg.vars_of(c['ast']) or sg.horizon(c['ast']) == float('inf'):
